@@ -424,6 +424,7 @@ func c08Neg(c *h.Ctx, dr *c08Drifts, dom, ws []rune, uni bool) int {
 	p := h.Guard(func() { b, err = ntlm.CreateNegotiateMessage(string(dom), string(ws), uni) })
 	c.Exec(1)
 	sample := map[string]interface{}{"domain": c08NameSample(dom), "workstation": c08NameSample(ws), "unicode": uni}
+	c.Retain(c08SiteNeg, b, sample)
 	if p != "" {
 		c.Fail(c08SiteNeg, "panic", p, sample)
 		return 0
@@ -453,6 +454,7 @@ func c08Auth(c *h.Ctx, dr *c08Drifts, ch *ntlm.ChallengeMessage, cf []byte, user
 	c.Exec(1)
 	sample := map[string]interface{}{"user": c08NameSample(user), "domain": c08NameSample(dom), "workstation": c08NameSample(ws),
 		"challenge_flags": fmt.Sprintf("%#08x", ch.NegotiateFlags), "target_info_len": len(ch.TargetInfo)}
+	c.Retain(c08SiteAuth, b, sample)
 	if p != "" {
 		c.Fail(c08SiteAuth, "panic", p, sample)
 		return 0
